@@ -99,6 +99,8 @@ def scalar_mult(x, y, out=None):
     else:
         if out is x or out is y:
             raise RuntimeError("Can't overwrite an argument!")
+        if out.shape != (2, *torch.broadcast_tensors(real(x), real(y))[0].shape):
+            raise RuntimeError("out has the wrong shape for this product!")
 
     torch.mul(real(x), real(y), out=real(out)).sub_(torch.mul(imag(x), imag(y)))
     torch.mul(real(x), imag(y), out=imag(out)).add_(torch.mul(imag(x), real(y)))
